@@ -158,6 +158,21 @@ CLAIMED = {
              "scenarios are not yet part of this check.",
         note=COMMON_NOTE + "Socket-level envelope functions are modelled from the source text; they are private methods not reachable from the harness.",
         design="§8 C11"),
+    "C14": dict(
+        engine="M7 Hwm + M3 Session",
+        technique="Lean 4 theorems: the send/recv decision functions at the high-water mark (try / timed / waiting branches) stated outright and "
+                  "proved by case analysis; buffering bounds by induction over every interleaving of application offers and session events; tie: "
+                  "translator re-extracts capacities and branch structure (theorem `source_shape`), stack scenarios on real sockets that measure "
+                  "error class, timing, the number of messages accepted with a receiver that does not read, and what arrives afterwards",
+        text="Proof over the models: SNDTIMEO 0 on a full connection fails at once with would-block; d > 0 fails exactly at d and only if no room "
+             "appeared by then, succeeds when room appears; -1 never fails and returns exactly when room appears; no spurious success; the same "
+             "three statements for RCVTIMEO on an empty socket; a refused send changes nothing and everything accepted stays accounted for in wire "
+             "order; the sending side of a connection holds at most 2*SNDHWM + SNDBATCH_COUNT messages (pipe, egress buffer, carry-over) for every "
+             "producer/consumer speed, the receiving side RCVHWM plus one read; the earlier 30 s cap on SNDTIMEO -1 is proved to violate the "
+             "statement. 13 theorems. Partial: wall-clock accuracy of Tokio timers, kernel socket buffers and DEALER's extra pending queue "
+             "(bounded by SNDHWM in the code, matched by pattern) are outside the theorems and measured by the scenarios only.",
+        note=COMMON_NOTE + "Timing oracles allow 600 ms of slack; kernel buffers are pinned with SNDBUF/RCVBUF in most scenarios.",
+        design="§8 C14"),
     "C17": dict(
         engine="M6 Routing + M7 Lifecycle",
         technique="Lean 4 arithmetic theorems for both back-off schedules over all (RECONNECT_IVL, RECONNECT_IVL_MAX, attempt); decision-table "
